@@ -36,6 +36,45 @@ def mc(out):
     out.cov["negative_controls"] = "write_after_freeze violates DictImmutable; shared_tokenizer and split_lock violate EveryResultSequential"
 
 
+def apalache(out):
+    """the inductive invariant of the sound design (any number of reads per analysis and of analyses per thread), with a negative control"""
+    import shutil
+    import tempfile
+    spec = os.path.join(os.path.dirname(os.path.dirname(os.path.abspath(__file__))), "spec")
+    od = os.path.join(C.WORK, "apalache")
+    tmp = os.path.join(C.WORK, "apalache_src")
+    shutil.rmtree(tmp, ignore_errors=True)
+    os.makedirs(tmp)
+    for f in ("Concurrent.tla", "APA_Concurrent.tla"):
+        shutil.copy(os.path.join(spec, f), tmp)
+    bad = open(os.path.join(spec, "APA_Concurrent.tla")).read().replace('Variant = "sound"', 'Variant = "write_after_freeze"').replace("MODULE APA_Concurrent", "MODULE APA_Concurrent_bad")
+    open(os.path.join(tmp, "APA_Concurrent_bad.tla"), "w").write(bad)
+
+    def run(mod, args):
+        p = subprocess.run(["apalache-mc", "check", f"--out-dir={od}", "--cinit=ConstInit"] + args + [mod + ".tla"], cwd=tmp, stdout=subprocess.PIPE, stderr=subprocess.STDOUT, text=True, timeout=1800)
+        if "The outcome is: NoError" in p.stdout:
+            return "ok"
+        if "The outcome is: Error" in p.stdout:
+            return "violated"
+        raise C.ToolError("apalache-mc failed: " + p.stdout[-600:])
+
+    steps = [("base case", "APA_Concurrent", ["--inv=IndInv", "--length=0"], "ok"),
+             ("induction step", "APA_Concurrent", ["--init=IndInit", "--inv=IndInv", "--length=1"], "ok"),
+             ("IndInv implies EveryResultSequential and DictImmutable", "APA_Concurrent", ["--init=IndInit", "--inv=Safety", "--length=0"], "ok"),
+             ("non-vacuity of IndInit", "APA_Concurrent", ["--init=IndInit", "--inv=NoInterestingState", "--length=0"], "violated"),
+             ("negative control: write after publication breaks the induction", "APA_Concurrent_bad", ["--init=IndInit", "--inv=IndInv", "--length=1"], "violated")]
+    for name, mod, args, want in steps:
+        got = run(mod, args)
+        if got != want:
+            if want == "ok":
+                out.violation(f"Apalache: {name} of the inductive invariant of Concurrent fails", {"kind": "model", "step": name}, signature=f"C18/model/apalache/{name}")
+            else:
+                raise C.ToolError(f"Apalache control `{name}` passed although it must fail: the inductive argument would be vacuous")
+    out.cov["inductive_invariant"] = ("Apalache: IndInv of the per-thread-tokenizer design is inductive for 4 threads and UNBOUNDED reads per analysis / analyses per thread "
+                                      "(base case, step, IndInv => safety), IndInit is satisfiable in an interesting state, and the write-after-publication design fails the step")
+    shutil.rmtree(od, ignore_errors=True)
+
+
 def rust_run(world, cfg, threads, iters, seed, tag):
     os.makedirs(W, exist_ok=True)
     tp = os.path.join(W, f"rust_{tag}.ndjson")
@@ -104,6 +143,7 @@ def run(tier, replay=None):
         "compile-time Send + Sync of JapaneseDictionary is asserted in the harness (harness/src/c18.rs)",
     ]
     mc(out)
+    apalache(out)
     rounds = [("full", 12, 40000, 2500), ("default", 16, 30000, 1500), ("regex", 8, 40000, 1500)]
     if tier == "thorough":
         rounds = [(c, t, i * 8, p * 6) for (c, t, i, p) in rounds] + [("full", 32, 100000, 4000), ("default", 3, 400000, 4000), ("regex", 16, 200000, 4000)]
